@@ -210,6 +210,12 @@ def _entrypoint_disagreements(c, zs, ER):
         s = lift(val)
         dis.append((name, lab, z3.Or(zb(s.u), zb(s.t) != ER[lab])))
 
+    # the caller's assignment must not be written to (it may be reused with more inputs defined)
+    for entry in ("evaluate_full_circuit", "evaluate_circuit", "evaluate_circuit_outputs"):
+        arg = dict(sym)
+        getattr(c, entry)(arg)
+        if set(arg) != set(sym) or any(arg[k] is not sym[k] for k in sym):
+            dis.append((entry + ":writes-into-the-assignment-argument", None, z3.BoolVal(True)))
     full = c.evaluate_full_circuit(dict(sym))
     if set(full) != set(c.gates):
         dis.append(("evaluate_full_circuit:keys", None, z3.BoolVal(True)))
@@ -275,6 +281,9 @@ def _replay_for(c_src, assign, entry, lab):
         + c_src
         + f"\nassign={assign!r}\nexp=ref_concrete(circ.netlist_of(c), assign)\n"
         "bad=[]\n"
+        "for entry in ('evaluate_full_circuit','evaluate_circuit','evaluate_circuit_outputs'):\n"
+        "    arg=dict(assign); getattr(c,entry)(arg)\n"
+        "    if arg!=assign: bad.append((entry,'writes into the assignment argument'))\n"
         "full=c.evaluate_full_circuit(dict(assign))\n"
         "for k in c.gates:\n"
         "    if k not in full or full[k] is not exp[k]: bad.append(('evaluate_full_circuit',k))\n"
